@@ -67,7 +67,10 @@ def finish(pid, tier, t0, coverage, violations, assumptions, confirm=None, exhau
         path = os.path.join(rdir, name)
         with open(path, "w") as fh:
             fh.write(v.replay_text)
-        print(f"VIOLATION property={pid} replay={path} sig={v.sig} cases={v.count} {v.detail}")
+        if nrep < 200:
+            print(f"VIOLATION property={pid} replay={path} sig={v.sig} cases={v.count} {v.detail}")
+        elif nrep == 200:
+            print(f"... {len(new) - 200} further violation signatures of {pid} not printed; every one has its replay file in {rdir}")
         status = 1
         nrep += 1
     coverage = dict(coverage)
